@@ -53,6 +53,7 @@ def gen_reacts(rng, nh, curh_known=None):
 def gen_case(rng, big=False, reacts=True):
     nh = rng.choice([1, 2, 2, 3, 3, 4])
     nps = [rng.choice([1, 1, 2, 3]) for _ in range(nh)]
+    ncs = [rng.choice([1, 2, 2, 3]) for _ in range(nh)]
     tok = [0]
     t = [rng.choice([0, 0, 3, 8, 100])]
     steps = [0, 0, 1, 1, 2, 3, 4, 8, 8, 13, 16, 40, 1000]
@@ -115,7 +116,7 @@ def gen_case(rng, big=False, reacts=True):
             frames.append(dict(t=t[0], pokes=pokes, pos=rng.randrange(4),
                                org=rng.choice(['proc', 'proc', 'event', 'coro']), act=act))
         ops.append(['start', frames, rng.choice(['quit', 'quit', 'other']), start_rs])
-    return dict(nps=nps, ops=ops, clock=rng.choice(['float', 'float', 'int', 'hugeint', 'fraction']))
+    return dict(nps=nps, ncs=ncs, ops=ops, clock=rng.choice(['float', 'float', 'int', 'hugeint', 'fraction']))
 
 
 def gen(rng, tier):
@@ -154,8 +155,10 @@ def shrink(case):
             for g in simpler:
                 yield dict(case, ops=ops[:i] + [['start', fs[:k] + [g] + fs[k + 1:], o[2]]]
                            + ops[i + 1:])
-    if len(case['nps']) > 1 or any(n > 1 for n in case['nps']):
+    if any(n > 1 for n in case['nps']):
         yield dict(case, nps=[1 for _ in case['nps']])
+    if any(n > 1 for n in case.get('ncs') or []):
+        yield dict(case, ncs=[1 for _ in case['nps']])
 
 
 def mutate(case, rng):
@@ -289,28 +292,41 @@ def run(case):
             st.log.append(['proc', wid(w), self.idx,
                            int(d8) if d8 is not None and d8.denominator == 1 else repr(dt)])
             f = st.cur
-            np_ = w.verif_np
-            pos = np_ - 1 if f['org'] == 'coro' else f['pos'] % np_
-            if self.idx != pos:
+            if f['org'] == 'coro' or self.idx != f['pos'] % w.verif_np:
                 return
-            for k, tok in f['pokes']:
-                hk = handles[k]
-                if hk.cached:
-                    tw = hk()
-                    st.log.append(['poke', k, tok, wid(tw)])
-                    tw.dispatch('on_poke', tok)
-            if f['act'][0] == 'normal':
-                return
-            if f['org'] == 'proc':
-                perform(f, w)
-            elif f['org'] == 'event':
-                w.dispatch('on_probe', f)
-            else:
-                def body():
-                    perform(f, w)
-                    yield
-                w.verif_coro_used = True
-                w.get_processor(desper.CoroutineProcessor).start(body())
+            act_here(f, w)
+
+    def act_here(f, w):
+        # the acting processor / coroutine: pokes, then the scripted action
+        for k, tok in f['pokes']:
+            hk = handles[k]
+            if hk.cached:
+                tw = hk()
+                st.log.append(['poke', k, tok, wid(tw)])
+                tw.dispatch('on_poke', tok)
+        if f['act'][0] == 'normal':
+            return
+        if f['org'] == 'event':
+            w.dispatch('on_probe', f)
+        else:
+            perform(f, w)
+
+    def coroutine_body(cidx, world):
+        while True:
+            st.log.append(['coro', wid(world), cidx])
+            f = st.cur
+            if f['org'] == 'coro' and cidx == f['pos'] % world.verif_nc:
+                try:
+                    act_here(f, world)
+                except BaseException:
+                    world.verif_coro_dead = True       # the exception ends this coroutine
+                    raise
+            yield
+
+    def start_coroutines(world):
+        cp = world.get_processor(desper.CoroutineProcessor)
+        for c in range(world.verif_nc):
+            cp.start(coroutine_body(c, world))
 
     proc_classes = [type('ScriptProc%d' % i, (ScriptProc,), {}) for i in range(8)]
 
@@ -318,29 +334,34 @@ def run(case):
         st.serial += 1
         world.verif_wid = st.serial
         world.verif_np = handle.np
-        world.verif_coro_used = False
+        world.verif_nc = handle.nc
+        world.verif_coro_dead = False
         st.log.append(['load', handle.idx, st.serial])
         for i in range(handle.np):
             world.add_processor(proc_classes[i](i), priority=2 * i)
         world.add_processor(desper.CoroutineProcessor(), priority=2 * handle.np)
+        start_coroutines(world)
         world.create_entity(Listener(world))
 
     class H(desper.WorldHandle):
-        def __init__(self, idx, np_):
+        def __init__(self, idx, np_, nc):
             super().__init__()
             self.idx = idx
             self.np = np_
+            self.nc = nc
             self.transform_functions.append(populate)
 
-    handles = [H(i, n) for i, n in enumerate(case['nps'])]
+    ncs = case.get('ncs') or [1] * len(case['nps'])
+    handles = [H(i, n, ncs[i]) for i, n in enumerate(case['nps'])]
 
     def timefn():
         cw = loop.current_world
-        if cw is not None and getattr(cw, 'verif_coro_used', False):
-            # an exception that left a coroutine leaves CoroutineProcessor's
-            # rotation out of step; give the world a new one between frames
+        if cw is not None and getattr(cw, 'verif_coro_dead', False):
+            # a coroutine of this world ended by an exception: between frames, give the
+            # world a new CoroutineProcessor and start its coroutines afresh, in order
             cw.add_processor(desper.CoroutineProcessor(), priority=2 * cw.verif_np)
-            cw.verif_coro_used = False
+            cw.verif_coro_dead = False
+            start_coroutines(cw)
         w, h = wid(cw), hid(loop.current_world_handle)
         st.inh = False
         if st.frames:
@@ -454,6 +475,8 @@ def enc_entry(e):
         return 'EProc %s %s %s' % (z(e[1]), nat(e[2]), z(e[3]))
     if k == 'poke':
         return 'EPoke %s %s %s' % (z(e[1]), z(e[2]), z(e[3]))
+    if k == 'coro':
+        return 'ECoro %s %s' % (z(e[1]), nat(e[2]))
     if k == 'act':
         return 'EAct %s %s' % (ORG[e[1]], enc_action(e[2]))
     if k == 'load':
@@ -528,7 +551,9 @@ def encode_r(case, trace):
         else:
             log = [enc_entry_r(e) for e in logs[i]]
         items.append('(%s, %s)' % (enc_op_r(o), lst(log)))
-    return '{| c_nps := %s; c_ops := %s |}' % (lst([nat(n) for n in case['nps']]), lst(items))
+    ncs = case.get('ncs') or [1] * len(case['nps'])
+    return '{| c_nps := %s; c_ncs := %s; c_ops := %s |}' % (
+        lst([nat(n) for n in case['nps']]), lst([nat(n) for n in ncs]), lst(items))
 
 
 def encode(case, trace):
